@@ -875,10 +875,22 @@ package parser
 //@   ensures [C20:stack-balanced] result2 == nil ==> (SameStack(p.breakStack, old(p.breakStack)) && SameStack(p.continueStack, old(p.continueStack)))
 //@   ensures [C18:located] result2 != nil ==> ErrLoc(result2)
 //@   loopinv [C20:stack-balanced-inv] SameStack(p.breakStack, old(p.breakStack)) && SameStack(p.continueStack, old(p.continueStack))
+// C01: the parts of an if statement are what was parsed for them, in order: the first condition and body, one entry per
+// 'elif', and the block parsed after 'else' (nothing is moved between them)
+//@   exit [C01:if-first] result2 == nil ==> (result0 == statement && statement.Consequence == consequence#1)
+//@   scoped [C01:else-block] result2 == nil ==> (statement.ElseConsequence == blockStmt && result0 == statement)
+//@   loop 1
+//@     invariant [C01:if-first-inv] statement.Consequence == consequence#1 && statement.ElseConsequence == nil
+//@     transition [C01:elif-kept] len(statement.ElifConsequences) == len(prev(statement.ElifConsequences)) + 1
+//@        && statement.ElifConsequences[len(prev(statement.ElifConsequences))] == lastresult(parseConditionExpression, 0)
+//@        && (forall k int :: {statement.ElifConsequences[k]} (0 <= k && k < len(prev(statement.ElifConsequences))) ==> statement.ElifConsequences[k] == prev(statement.ElifConsequences)[k])
+//@        && statement.Consequence == prev(statement.Consequence) && statement.ElseConsequence == prev(statement.ElseConsequence)
 //@ end
 
 //@ func (p *Parser) parseWhileStatement
 //@   include ParseFrame
+// C01: the loop's condition and body are what was parsed for them
+//@   exit [C01:while-parts] result2 == nil ==> (result0 == statement && statement.Consequence == consequence && consequence == lastresult(parseConditionExpression, 0))
 //@   ensures [C18:wf-while] result2 == nil ==> (result0 != nil && fresh(result0) && CondNodeOK(result0.Consequence, false))
 //@   ensures [C06:slot] result2 == nil ==> (ImpOK(result1) && (result1 == nil || fresh(result1)))
 //@   modifies holes
@@ -891,6 +903,9 @@ package parser
 
 //@ func (p *Parser) parseDoWhileStatement
 //@   include ParseFrame
+// C01: the body is the block parsed between 'do' and 'while', the condition the expression parsed after it
+//@   exit [C01:dowhile-parts] result2 == nil ==> (result0 == statement && statement.Consequence == expression && expression.Body == blockStmt && blockStmt == lastresult(parseBlockStatement, 0)
+//@        && expression.Expression == boolExpression && boolExpression == lastresult(parseBooleanExpression, 0))
 //@   ensures [C18:wf-dowhile] result2 == nil ==> (result0 != nil && fresh(result0) && CondNodeOK(result0.Consequence, true))
 //@   ensures [C06:slot] result2 == nil ==> (ImpOK(result1) && (result1 == nil || fresh(result1)))
 //@   modifies holes
